@@ -329,3 +329,99 @@ func Returns(fn *ssa.Function) []*ssa.Return {
 	}
 	return out
 }
+
+// PathsTo enumerates the acyclic paths from the entry block to block b (the
+// last block of each path is b).  ok is false if there are more than
+// maxPaths.
+func PathsTo(fn *ssa.Function, b *ssa.BasicBlock, maxPaths int) (paths []Path, ok bool) {
+	if len(fn.Blocks) == 0 {
+		return nil, true
+	}
+	// only blocks from which b is reachable are worth entering
+	reach := map[*ssa.BasicBlock]bool{b: true}
+	for changed := true; changed; {
+		changed = false
+		for _, x := range fn.Blocks {
+			if reach[x] {
+				continue
+			}
+			for _, s := range x.Succs {
+				if reach[s] {
+					reach[x] = true
+					changed = true
+					break
+				}
+			}
+		}
+	}
+	ok = true
+	on := map[*ssa.BasicBlock]bool{}
+	var cur []*ssa.BasicBlock
+	var rec func(x *ssa.BasicBlock)
+	rec = func(x *ssa.BasicBlock) {
+		if !ok || on[x] || !reach[x] {
+			return
+		}
+		on[x] = true
+		cur = append(cur, x)
+		if x == b {
+			paths = append(paths, Path{Blocks: append([]*ssa.BasicBlock{}, cur...)})
+			if len(paths) > maxPaths {
+				ok = false
+			}
+		} else {
+			for _, s := range x.Succs {
+				rec(s)
+			}
+		}
+		cur = cur[:len(cur)-1]
+		on[x] = false
+	}
+	rec(fn.Blocks[0])
+	return paths, ok
+}
+
+// MustLiterals is the path-sensitive counterpart of FactsAt.  lit classifies
+// a branch condition as a literal (key, truth) or ignores it.  Every acyclic
+// path from the entry to `in` is reduced to its literals; a path carrying a
+// literal both ways is infeasible and dropped (`a && b` followed by a second
+// test of `a` produces such paths); the result holds the literals common to
+// all feasible paths.  ok is false if paths could not be enumerated or none
+// is feasible.
+func MustLiterals(fn *ssa.Function, in ssa.Instruction, lit func(Cond) (key string, truth bool, ok bool)) (map[string]bool, bool) {
+	paths, ok := PathsTo(fn, in.Block(), 256)
+	if !ok {
+		return nil, false
+	}
+	var res map[string]bool
+	n := 0
+	for _, pa := range paths {
+		lits := map[string]bool{}
+		feasible := true
+		for _, cd := range pa.Conds() {
+			k, t, isLit := lit(cd)
+			if !isLit {
+				continue
+			}
+			if old, has := lits[k]; has && old != t {
+				feasible = false
+				break
+			}
+			lits[k] = t
+		}
+		if !feasible {
+			continue
+		}
+		n++
+		if res == nil {
+			res = lits
+			continue
+		}
+		for k, t := range res {
+			if t2, has := lits[k]; !has || t2 != t {
+				delete(res, k)
+			}
+		}
+	}
+	return res, n > 0
+}
